@@ -1,3 +1,601 @@
-/- Property theorems for C17 (stub: not built yet). -/
+/-
+C17  Classifiers return well-formed probabilities consistent with their predictions.
+Property theorems about SkVerif/Model/Proba.lean (sktime's own aggregation, arg-max, label decoding,
+score, interval features and interval sampling; the ensemble members are arbitrary).
+Only theorems + non-vacuity examples here.
+-/
+import SkVerif.Model.Proba
+import SkVerif.Spec.Proba
+import SkVerif.Lemmas.ProbaLabels
+import SkVerif.Lemmas.ProbaArgmax
+import SkVerif.Lemmas.ProbaAvg
+import SkVerif.Lemmas.ProbaVotes
+import SkVerif.Lemmas.ProbaFeat
+import SkVerif.Lemmas.ProbaIntervals
+import Mathlib.Data.List.Basic
 namespace SkVerif.C17
+open SkVerif.C17 SkVerif.C17.Spec
+
+/-! ## classes_ -/
+
+/-- `classes_` is the set of training labels, strictly increasing (so: one column per class seen in
+training, in sorted order, independent of the order of first appearance in `y`). -/
+theorem classes_sorted_distinct_training_labels (y : List Label) :
+    (classesOf y).Pairwise Lem.LabelLt ∧ (classesOf y).Nodup ∧ ∀ a, a ∈ classesOf y ↔ a ∈ y :=
+  ⟨Lem.classesOf_sorted y, Lem.classesOf_nodup y, fun a => Lem.mem_classesOf y a⟩
+
+example : classesOf [.str "b", .str "a", .str "b", .str "B"] = [.str "B", .str "a", .str "b"] := by decide +kernel
+example : classesOf [.int 7, .int (-3), .int 7, .int 100] = [.int (-3), .int 7, .int 100] := by decide +kernel
+example : classesOf [.str "10", .str "9", .str "2"] = [.str "10", .str "2", .str "9"] := by decide +kernel
+
+/-! ## forests and the column ensemble: an average of distributions is a distribution -/
+
+/-- TSF / RISE / STSF `predict_proba`: if every fitted tree returns, for each of the `n` instances, a
+distribution over the `K` classes, then so does the forest (one row per instance, one column per
+class, entries in [0,1], rows summing to 1) — for every number of trees, classes and instances. -/
+theorem avg_of_distributions_is_distribution (K n : Nat) (m : Mat) (ms : List Mat)
+    (h : ∀ M ∈ m :: ms, M.length = n ∧ ∀ r ∈ M, r.length = K ∧ IsDist r) :
+    ∃ P, forestProba K (m :: ms) = .ok P ∧ P.length = n ∧ ∀ r ∈ P, r.length = K ∧ IsDist r := by
+  have hs : ∀ M ∈ m :: ms, sameShape n K M = true := fun M hM =>
+    Lem.sameShape_iff.mpr ⟨(h M hM).1, fun r hr => ((h M hM).2 r hr).1⟩
+  have hok : ∀ M ∈ m :: ms, Lem.MatOK n K 1 M := fun M hM =>
+    ⟨(h M hM).1, fun r hr => Lem.rowOK_of_isDist ((h M hM).2 r hr).1 ((h M hM).2 r hr).2⟩
+  refine ⟨_, Lem.forestProba_eq m ms hs, ?_⟩
+  have hsum := Lem.sumMats_ok m ms hok
+  have hd : (0 : Rat) < ((m :: ms).length : Rat) := by
+    simp only [List.length_cons]; exact_mod_cast Nat.succ_pos _
+  have e : ((m :: ms).length : Rat) = (ms.length : Rat) + 1 := by simp
+  rw [e] at hd ⊢
+  exact Lem.scaleMat_dist hd hsum
+
+example : forestProba 2 [[[1, 0], [1/2, 1/2]], [[0, 1], [1/2, 1/2]], [[0, 1], [1, 0]]] =
+    .ok [[1/3, 2/3], [2/3, 1/3]] := by decide +kernel
+
+/-- `ColumnEnsembleClassifier.predict_proba`: the same for `np.average` over the members. -/
+theorem column_ensemble_avg_is_distribution (K n : Nat) (m : Mat) (ms : List Mat)
+    (h : ∀ M ∈ m :: ms, M.length = n ∧ ∀ r ∈ M, r.length = K ∧ IsDist r) :
+    ∃ P, avgProba (m :: ms) = .ok P ∧ P.length = n ∧ ∀ r ∈ P, r.length = K ∧ IsDist r := by
+  have hs : ∀ M ∈ m :: ms, sameShape n K M = true := fun M hM =>
+    Lem.sameShape_iff.mpr ⟨(h M hM).1, fun r hr => ((h M hM).2 r hr).1⟩
+  have hok : ∀ M ∈ m :: ms, Lem.MatOK n K 1 M := fun M hM =>
+    ⟨(h M hM).1, fun r hr => Lem.rowOK_of_isDist ((h M hM).2 r hr).1 ((h M hM).2 r hr).2⟩
+  refine ⟨_, Lem.avgProba_eq m ms hs, ?_⟩
+  have hsum := Lem.sumMats_ok m ms hok
+  have hd : (0 : Rat) < ((m :: ms).length : Rat) := by
+    simp only [List.length_cons]; exact_mod_cast Nat.succ_pos _
+  have e : ((m :: ms).length : Rat) = (ms.length : Rat) + 1 := by simp
+  rw [e] at hd ⊢
+  exact Lem.scaleMat_dist hd hsum
+
+example : avgProba [[[1/4, 3/4]], [[3/4, 1/4]]] = .ok [[1/2, 1/2]] := by decide +kernel
+
+/-- closed form: entry `(i, c)` of the forest's matrix is the mean of the trees' entries `(i, c)` -/
+theorem forest_proba_entry (n K : Nat) (m : Mat) (ms : List Mat) (h : ∀ M ∈ m :: ms, sameShape n K M = true) :
+    ∃ P, forestProba K (m :: ms) = .ok P ∧
+      ∀ i c, Lem.entry P i c = ((m :: ms).map (fun M => Lem.entry M i c)).sum / ((m :: ms).length : Rat) := by
+  refine ⟨_, Lem.forestProba_eq m ms h, ?_⟩
+  intro i c
+  rw [Lem.scaleMat_entry, (Lem.sumMats_entry m ms h i c).1]
+
+/-- numpy refuses to add matrices of different widths: a forest whose members disagree on the number
+of classes (and are not all single-column) cannot return probabilities -/
+theorem forest_ragged_members_rejected (K : Nat) (m : Mat) (ms : List Mat)
+    (h1 : ∃ M ∈ m :: ms, sameShape m.length K M = false) (h2 : ∃ M ∈ m :: ms, sameShape m.length 1 M = false) :
+    forestProba K (m :: ms) = .error .value := by
+  have e1 : (m :: ms).all (sameShape m.length K) = false := by
+    rw [List.all_eq_false]; obtain ⟨M, hM, hf⟩ := h1; exact ⟨M, hM, by simp [hf]⟩
+  have e2 : (m :: ms).all (sameShape m.length 1) = false := by
+    rw [List.all_eq_false]; obtain ⟨M, hM, hf⟩ := h2; exact ⟨M, hM, by simp [hf]⟩
+  simp only [forestProba, e1, e2, Bool.false_eq_true, if_false]
+
+example : forestProba 2 [[[1, 0]], [[1]]] = .error .value := by decide +kernel
+
+/-- KNOWN FINDING (STSF), negation at a concrete witness: trees fitted on bags that all miss a class
+return one column; numpy broadcasts it against `np.ones(n_classes)` and the row sums to 2. -/
+theorem forest_narrow_members_not_distribution :
+    forestProba 2 [[[1]], [[1]], [[1]]] = .ok [[1, 1]] ∧ ¬ IsDist [1, 1] := by
+  refine ⟨by decide +kernel, ?_⟩
+  intro h
+  have := h.2
+  norm_num at this
+
+/-! ## dictionary ensembles: normalised votes -/
+
+/-- FULL STATEMENT (does not hold, see the two theorems below): for every fitted BOSS / cBOSS / TDE
+ensemble, `predict_proba` rows are distributions.
+PROVED PART: vote counting normalised by the total weight is a distribution whenever the total
+weight of the retained members is positive (members' predictions are training labels, weights ≥ 0):
+for every number of members, classes, instances and all weights. -/
+theorem votes_normalised_is_distribution_partial (classes : List Label) (n : Nat) (members : List (List Label × Rat))
+    (hmem : ∀ m ∈ members, n ≤ m.1.length ∧ (∀ l ∈ m.1, l ∈ classes) ∧ 0 ≤ m.2)
+    (hpos : 0 < (members.map (·.2)).sum) :
+    ∃ P : Mat, cbossProba classes n members = .ok (P.map (fun r => r.map some)) ∧ P.length = n ∧
+      ∀ r ∈ P, r.length = classes.length ∧ IsDist r := by
+  let d := (members.map (·.2)).sum
+  let g : Nat → Row := fun i => (Lem.votePure classes (Lem.votesPure members i) (zeros classes.length)).map (· / d)
+  refine ⟨(List.range n).map g, ?_, by simp, ?_⟩
+  · unfold cbossProba ensembleProba
+    rw [Lem.mapM_ok _ (fun i => (g i).map some)]
+    · simp [List.map_map, Function.comp_def]
+    · intro i hi
+      have hi' : i < n := List.mem_range.mp hi
+      have h1 := Lem.votesFor_eq_pure members i (fun m hm => by have := (hmem m hm).1; omega)
+      have hv := Lem.votesPure_mem members i classes (fun m hm =>
+        ⟨by have := (hmem m hm).1; omega, (hmem m hm).2.1, (hmem m hm).2.2⟩)
+      have h2 := Lem.voteRow_eq_pure classes (Lem.votesPure members i) (zeros classes.length) (fun v hv' => (hv v hv').1)
+      simp only [h1, h2, bind, Except.bind, pure, Except.pure]
+      rw [Lem.pyDiv_map _ _ (ne_of_gt hpos)]
+  · intro r hr
+    simp only [List.mem_map, List.mem_range] at hr
+    obtain ⟨i, hi, rfl⟩ := hr
+    have hv := Lem.votesPure_mem members i classes (fun m hm =>
+      ⟨by have := (hmem m hm).1; omega, (hmem m hm).2.1, (hmem m hm).2.2⟩)
+    have hok := Lem.votePure_ok classes rfl (Lem.votesPure members i) (Lem.zeros_ok classes.length) hv
+    rw [Lem.votesPure_weights, zero_add] at hok
+    exact Lem.scaleRow_dist hpos hok
+
+/-- BOSSEnsemble is the case of unit weights: a distribution as soon as one member was retained -/
+theorem boss_votes_is_distribution_partial (classes : List Label) (n : Nat) (preds : List (List Label))
+    (hmem : ∀ p ∈ preds, n ≤ p.length ∧ ∀ l ∈ p, l ∈ classes) (hne : preds ≠ []) :
+    ∃ P : Mat, bossProba classes n preds = .ok (P.map (fun r => r.map some)) ∧ P.length = n ∧
+      ∀ r ∈ P, r.length = classes.length ∧ IsDist r := by
+  have hsum : ((preds.map (fun p => (p, (1 : Rat)))).map (·.2)).sum = (preds.length : Rat) := by
+    clear hmem hne
+    induction preds with
+    | nil => simp
+    | cons p ps ih => simp only [List.map_cons, List.sum_cons, ih, List.length_cons]; push_cast; ring
+  have hpos : 0 < ((preds.map (fun p => (p, (1 : Rat)))).map (·.2)).sum := by
+    rw [hsum]; exact_mod_cast List.length_pos_iff.mpr hne
+  have := votes_normalised_is_distribution_partial classes n (preds.map (fun p => (p, (1 : Rat))))
+    (by
+      intro m hm
+      simp only [List.mem_map] at hm
+      obtain ⟨p, hp, rfl⟩ := hm
+      exact ⟨(hmem p hp).1, (hmem p hp).2, by norm_num⟩) hpos
+  unfold cbossProba at this
+  unfold bossProba
+  rw [← hsum]; exact this
+
+example : bossProba [.str "a", .str "b"] 2 [[.str "a", .str "b"], [.str "a", .str "a"], [.str "b", .str "a"]] =
+    .ok [[some (2/3), some (1/3)], [some (2/3), some (1/3)]] := by decide +kernel
+example : cbossProba [.int 3, .int 8] 1 [([.int 8], 1/4), ([.int 3], 3/4)] = .ok [[some (3/4), some (1/4)]] := by decide +kernel
+
+/-- KNOWN FINDING (BOSSEnsemble, series_length = min_window − 1): an ensemble that retained no member
+returns NaN in every entry, for every class set and number of instances. -/
+theorem votes_empty_ensemble_not_distribution (classes : List Label) (n : Nat) :
+    bossProba classes n [] = .ok ((List.range n).map (fun _ => List.replicate classes.length none)) := by
+  unfold bossProba ensembleProba
+  rw [Lem.mapM_ok _ (fun _ => List.replicate classes.length none)]
+  intro i _
+  simp only [List.map_nil, votesFor, List.mapM_nil, voteRow, bind, Except.bind, pure, Except.pure, List.length_nil,
+    Nat.cast_zero]
+  rw [Lem.pyDiv_map_zero]
+  simp [zeros]
+
+/-- KNOWN FINDING (cBOSS / TDE, every retained member has train accuracy 0): a zero total weight gives
+NaN in every entry, whatever the members predict. -/
+theorem votes_zero_weight_not_distribution (classes : List Label) (n : Nat) (members : List (List Label × Rat))
+    (hmem : ∀ m ∈ members, n ≤ m.1.length ∧ (∀ l ∈ m.1, l ∈ classes))
+    (hzero : (members.map (·.2)).sum = 0) :
+    cbossProba classes n members = .ok ((List.range n).map (fun _ => List.replicate classes.length none)) := by
+  unfold cbossProba ensembleProba
+  rw [Lem.mapM_ok _ (fun _ => List.replicate classes.length none)]
+  intro i hi
+  have hi' : i < n := List.mem_range.mp hi
+  have h1 := Lem.votesFor_eq_pure members i (fun m hm => by have := (hmem m hm).1; omega)
+  have hv : ∀ v ∈ Lem.votesPure members i, v.1 ∈ classes := by
+    intro v hv
+    simp only [Lem.votesPure, List.mem_map] at hv
+    obtain ⟨m, hm, rfl⟩ := hv
+    have hlt : i < m.1.length := by have := (hmem m hm).1; omega
+    simp only [List.getElem?_eq_getElem hlt, Option.getD_some]
+    exact (hmem m hm).2 _ (List.getElem_mem _)
+  have h2 := Lem.voteRow_eq_pure classes (Lem.votesPure members i) (zeros classes.length) hv
+  simp only [h1, h2, bind, Except.bind, pure, Except.pure, hzero]
+  rw [Lem.pyDiv_map_zero]
+  congr 2
+  -- the vote loop keeps the row length
+  have : ∀ (vs : List (Label × Rat)) (row : Row), (Lem.votePure classes vs row).length = row.length := by
+    intro vs
+    induction vs with
+    | nil => intro row; rfl
+    | cons v vs ih => intro row; obtain ⟨l, w⟩ := v; simp [Lem.votePure, ih, bump]
+  rw [this]; simp [zeros]
+
+example : cbossProba [.int 0, .int 1] 2 [([.int 1, .int 0], 0), ([.int 0, .int 0], 0)] =
+    .ok [[none, none], [none, none]] := by decide +kernel
+
+/-- `IndividualBOSS` / `IndividualTDE.predict_proba`: the one-hot row of the member's prediction -/
+theorem indiv_one_hot_is_distribution (classes : List Label) (preds : List Label) (h : ∀ l ∈ preds, l ∈ classes) :
+    ∃ P, indivProba classes preds = .ok P ∧ P.length = preds.length ∧ ∀ r ∈ P, r.length = classes.length ∧ IsDist r := by
+  refine ⟨preds.map (fun l => Lem.votePure classes [(l, 1)] (zeros classes.length)), ?_, by simp, ?_⟩
+  · unfold indivProba
+    apply Lem.mapM_ok
+    intro l hl
+    exact Lem.voteRow_eq_pure classes [(l, 1)] _ (by intro v hv; simp at hv; subst hv; exact h l hl)
+  · intro r hr
+    simp only [List.mem_map] at hr
+    obtain ⟨l, hl, rfl⟩ := hr
+    have := Lem.votePure_ok classes rfl [(l, 1)] (Lem.zeros_ok classes.length)
+      (by intro v hv; simp at hv; subst hv; exact ⟨h l hl, by norm_num⟩)
+    have e : (0 : Rat) + ([(l, (1 : Rat))].map (·.2)).sum = 1 := by simp
+    rw [e] at this
+    exact ⟨this.1, Lem.isDist_of_rowOK this⟩
+
+example : indivProba [.int 2, .int 5, .int 9] [.int 5, .int 2] = .ok [[0, 1, 0], [1, 0, 0]] := by decide +kernel
+
+/-! ## predict -/
+
+/-- `predict` (TSF, RISE, STSF, column ensemble, BaseClassifier): the returned label is the class
+whose column holds the maximum of the instance's probability row. -/
+theorem predict_attains_max_proba (classes : List Label) (r : Row) (lab : Label) (h : predictRow classes r = .ok lab) :
+    ∃ (j : Nat) (v : Rat), classes[j]? = some lab ∧ r[j]? = some v ∧ ∀ x ∈ r, x ≤ v := by
+  unfold predictRow at h
+  cases ha : argmax? r with
+  | none => rw [ha] at h; cases h
+  | some j =>
+    rw [ha] at h
+    obtain ⟨v, hv, hmax, _⟩ := Lem.argmax?_spec ha
+    exact ⟨j, v, (Lem.decode_mem h).1, hv, hmax⟩
+
+/-- … and it is the FIRST such column (`np.argmax`): every earlier class has a strictly smaller probability -/
+theorem predict_is_first_max (classes : List Label) (r : Row) (lab : Label) (h : predictRow classes r = .ok lab) :
+    ∃ (j : Nat) (v : Rat), classes[j]? = some lab ∧ r[j]? = some v ∧ ∀ k, k < j → ∀ y, r[k]? = some y → y < v := by
+  unfold predictRow at h
+  cases ha : argmax? r with
+  | none => rw [ha] at h; cases h
+  | some j =>
+    rw [ha] at h
+    obtain ⟨v, hv, _, hfirst⟩ := Lem.argmax?_spec ha
+    exact ⟨j, v, (Lem.decode_mem h).1, hv, hfirst⟩
+
+example : predictRow [.str "a", .str "b", .str "c"] [1/4, 3/8, 3/8] = .ok (.str "b") := by decide +kernel
+
+/-- BOSS / cBOSS / TDE `predict` (random choice among the maxima): whatever the generator draws, the
+returned label attains the maximal probability. -/
+theorem ensemble_predict_attains_max_proba (classes : List Label) (r : List (Option Rat)) (draw : Nat) (lab : Label)
+    (h : ensemblePredictRow classes r draw = .ok lab) :
+    ∃ (row : Row) (j : Nat) (v : Rat), allSome r = some row ∧ classes[j]? = some lab ∧ row[j]? = some v ∧ ∀ x ∈ row, x ≤ v := by
+  unfold ensemblePredictRow at h
+  cases hr : allSome r with
+  | none => rw [hr] at h; cases h
+  | some row =>
+    rw [hr] at h
+    simp only at h
+    cases ht : (tiesOf row)[draw]? with
+    | none => rw [ht] at h; cases h
+    | some j =>
+      rw [ht] at h
+      obtain ⟨v, hv, hmax⟩ := Lem.mem_tiesOf (List.mem_of_getElem? ht)
+      exact ⟨row, j, v, rfl, (Lem.decode_mem h).1, hv, hmax⟩
+
+example : ensemblePredictRow [.int 4, .int 6, .int 9] [some (2/5), some (1/5), some (2/5)] 1 = .ok (.int 9) := by decide +kernel
+example : ensemblePredictRow [.int 4, .int 6, .int 9] [some (2/5), some (1/5), some (2/5)] 0 = .ok (.int 4) := by decide +kernel
+
+/-- the predicted label is one of the labels the user passed to `fit` — the very value, hence of the
+user's label type (integers stay integers, strings stay strings, non-contiguous values are kept) —
+and `predict` succeeds on every non-empty row with one entry per class. -/
+theorem predict_in_training_labels_same_type (y : List Label) (r : Row) :
+    (∀ lab, predictRow (classesOf y) r = .ok lab → lab ∈ y) ∧
+    (r ≠ [] → r.length = (classesOf y).length → ∃ lab, predictRow (classesOf y) r = .ok lab) := by
+  constructor
+  · intro lab h
+    obtain ⟨j, _, hj, _⟩ := predict_attains_max_proba _ _ _ h
+    exact (Lem.mem_classesOf y lab).mp (List.mem_of_getElem? hj)
+  · intro hne hlen
+    obtain ⟨j, hj⟩ := Lem.argmax?_isSome hne
+    have hlt : j < (classesOf y).length := hlen ▸ Lem.argmax?_lt hj
+    obtain ⟨lab, hl⟩ := Lem.decode_ok hlt
+    exact ⟨lab, by simp [predictRow, hj, hl]⟩
+
+theorem ensemble_predict_in_training_labels_same_type (y : List Label) (r : List (Option Rat)) (draw : Nat) (lab : Label)
+    (h : ensemblePredictRow (classesOf y) r draw = .ok lab) : lab ∈ y := by
+  obtain ⟨_, j, _, _, hj, _⟩ := ensemble_predict_attains_max_proba _ _ _ _ h
+  exact (Lem.mem_classesOf y lab).mp (List.mem_of_getElem? hj)
+
+example : predictRow (classesOf [.int 300, .int (-2), .int 300, .int 7]) [1/4, 1/4, 1/2] = .ok (.int 300) := by decide +kernel
+
+/-! ## score -/
+
+/-- `score` = number of predictions equal to the true label, divided by the number of instances -/
+theorem score_eq_fraction_matching (yTrue yPred : List Label) (q : Rat) (h : score yTrue yPred = .ok q) :
+    yTrue.length = yPred.length ∧ 0 < yTrue.length ∧
+    q = (((yTrue.zip yPred).filter (fun p => decide (p.1 = p.2))).length : Rat) / (yTrue.length : Rat) ∧
+    0 ≤ q ∧ q ≤ 1 := by
+  unfold score at h
+  split at h
+  · cases h
+  · rename_i hl
+    split at h
+    · cases h
+    · rename_i h0
+      simp only [Except.ok.injEq] at h
+      have hl' : yTrue.length = yPred.length := by simpa using hl
+      have hpos : 0 < yTrue.length := Nat.pos_of_ne_zero h0
+      have hposR : (0 : Rat) < (yTrue.length : Rat) := by exact_mod_cast hpos
+      have hle : ((yTrue.zip yPred).filter (fun p => decide (p.1 = p.2))).length ≤ yTrue.length := by
+        calc _ ≤ (yTrue.zip yPred).length := List.length_filter_le _ _
+          _ ≤ yTrue.length := by simp [List.length_zip]
+      refine ⟨hl', hpos, h.symm, ?_, ?_⟩
+      · rw [← h]; apply div_nonneg <;> exact_mod_cast Nat.zero_le _
+      · rw [← h, div_le_one hposR]; exact_mod_cast hle
+
+example : score [.str "a", .str "b", .str "a", .str "c"] [.str "a", .str "a", .str "a", .str "c"] = .ok (3/4) := by decide +kernel
+
+/-! ## time series forest: what the trees are asked, and the average of what they answer -/
+
+/-- `_slope` as coded (`(mean(y·x) − mean(x)·mean(y)) / (mean(x²) − mean(x)²)`, `x = 1..n`) is the
+ordinary-least-squares slope, for every series of at least two points -/
+theorem slope_eq_ols (ys : Row) (h : 2 ≤ ys.length) : slope? ys = some (olsSlope ys) := Lem.slope?_eq ys h
+
+example : slope? [1, 2, 4] = some (3/2) ∧ olsSlope [1, 2, 4] = 3/2 := by decide +kernel
+
+/-- the value handed to the tree as "standard deviation" is `s` with `s ≥ 0`, `s·s = var`: `var` is
+the population variance and is non-negative, so such an `s` is the standard deviation -/
+theorem var_is_sqrt_radicand (xs : Row) (hx : xs ≠ []) :
+    var? xs = some (variance xs) ∧ 0 ≤ variance xs ∧ ∀ s, IsSqrt s (variance xs) → s * s = variance xs ∧ 0 ≤ s := by
+  exact ⟨Lem.var?_eq xs hx, Lem.variance_nonneg xs, fun s hs => ⟨hs.2, hs.1⟩⟩
+
+/-- `_transform`: the row handed to a tree has three entries per fitted interval `[a, b)`: the mean,
+the variance (`np.std` squared) and the OLS slope of `X[i, a:b]` (intervals of at least two points) -/
+theorem features_are_mean_var_slope (ivs : List (Nat × Nat)) (row : Row) (j a b : Nat)
+    (hj : ivs[j]? = some (a, b)) (hab : a + 2 ≤ b) (hb : b ≤ row.length) :
+    (transformRow ivs row).length = 3 * ivs.length ∧
+    (transformRow ivs row)[3 * j]? = some (some (mean (slice row a b))) ∧
+    (transformRow ivs row)[3 * j + 1]? = some (some (variance (slice row a b))) ∧
+    (transformRow ivs row)[3 * j + 2]? = some (some (olsSlope (slice row a b))) := by
+  have hlen : (slice row a b).length = b - a := Lem.slice_length row a b hb
+  have hne : slice row a b ≠ [] := by
+    intro e; rw [e] at hlen; simp at hlen; omega
+  obtain ⟨h0, h1, h2⟩ := Lem.transformRow_getElem? ivs row j (a, b) hj
+  refine ⟨Lem.transformRow_length ivs row, ?_, ?_, ?_⟩
+  · rw [h0, Lem.mean?_eq _ hne]
+  · rw [h1, Lem.var?_eq _ hne]
+  · have h2len : 2 ≤ (slice row a b).length := by rw [hlen]; omega
+    rw [h2, Lem.slope?_eq _ h2len]
+
+example : transformRow [(0, 3), (1, 4)] [1, 2, 4, 8] =
+    [some (7/3), some (14/9), some (3/2), some (14/3), some (56/9), some 3] := by decide +kernel
+
+/-- `TimeSeriesForestClassifier.predict_proba`: entry `(i, c)` is the mean over the trees of tree `t`'s
+probability of class `c` on the features of ITS OWN fitted intervals of instance `i`
+(for all trees — arbitrary functions returning `K` columns —, intervals, panels). -/
+theorem tsf_proba_eq_mean_of_trees_on_features (K : Nat) (trees : List Tree) (intervals : List (List (Nat × Nat)))
+    (X : Mat) (hlen : trees.length = intervals.length) (hT : trees ≠ [])
+    (hshape : ∀ t ∈ trees, ∀ f, (t f).length = K) :
+    ∃ P, tsfProba K trees intervals X = .ok P ∧
+      ∀ i (hi : i < X.length) c, Lem.entry P i c =
+        (List.zipWith (fun (t : Tree) ivs => (t (transformRow ivs X[i])).getD c 0) trees intervals).sum / (trees.length : Rat) := by
+  have hs : ∀ M ∈ List.zipWith (fun (t : Tree) ivs => (transform X ivs).map t) trees intervals,
+      sameShape X.length K M = true := by
+    intro M hM
+    obtain ⟨k, hk, rfl⟩ := List.mem_iff_getElem.mp hM
+    rw [List.getElem_zipWith, Lem.sameShape_iff]
+    refine ⟨by simp [transform], ?_⟩
+    intro r hr
+    simp only [List.mem_map] at hr
+    obtain ⟨f, _, rfl⟩ := hr
+    exact hshape _ (List.getElem_mem _) f
+  have hne : List.zipWith (fun (t : Tree) ivs => (transform X ivs).map t) trees intervals ≠ [] := by
+    intro e
+    have := congrArg List.length e
+    simp only [List.length_zipWith, List.length_nil] at this
+    have := List.length_pos_iff.mpr hT
+    omega
+  obtain ⟨P, hP, hE⟩ := Lem.forestProba_entry_list _ hne hs
+  refine ⟨P, hP, ?_⟩
+  intro i hi c
+  rw [hE i c, List.map_zipWith]
+  have hfun : ∀ (t : Tree) (ivs : List (Nat × Nat)),
+      Lem.entry ((transform X ivs).map t) i c = (t (transformRow ivs X[i])).getD c 0 := by
+    intro t ivs
+    simp [Lem.entry, transform, List.getD_eq_getElem?_getD, List.getElem?_eq_getElem hi]
+  simp only [hfun, List.length_zipWith, ← hlen, Nat.min_self]
+
+/-- `TimeSeriesForestRegressor.predict`: prediction `i` is the mean of the trees' predictions on the
+features of their own intervals -/
+theorem tsf_regressor_eq_mean_of_trees_on_features (trees : List RTree) (intervals : List (List (Nat × Nat)))
+    (X : Mat) (hlen : trees.length = intervals.length) (hT : trees ≠ []) :
+    ∃ p, tsfRegPredict trees intervals X = .ok p ∧ p.length = X.length ∧
+      ∀ i (hi : i < X.length), p.getD i 0 =
+        (List.zipWith (fun (t : RTree) ivs => t (transformRow ivs X[i])) trees intervals).sum / (trees.length : Rat) := by
+  have hq : ∀ q ∈ List.zipWith (fun (t : RTree) ivs => (transform X ivs).map t) trees intervals, q.length = X.length := by
+    intro q hq
+    obtain ⟨k, hk, rfl⟩ := List.mem_iff_getElem.mp hq
+    simp [transform]
+  have hne : List.zipWith (fun (t : RTree) ivs => (transform X ivs).map t) trees intervals ≠ [] := by
+    intro e
+    have := congrArg List.length e
+    simp only [List.length_zipWith, List.length_nil] at this
+    have := List.length_pos_iff.mpr hT
+    omega
+  obtain ⟨p, hp, hl, hE⟩ := Lem.regPredict_list _ hne hq
+  refine ⟨p, hp, hl, ?_⟩
+  intro i hi
+  rw [hE i hi, List.map_zipWith]
+  have hfun : ∀ (t : RTree) (ivs : List (Nat × Nat)),
+      ((transform X ivs).map t).getD i 0 = t (transformRow ivs X[i]) := by
+    intro t ivs
+    simp [transform, List.getD_eq_getElem?_getD, List.getElem?_eq_getElem hi]
+  simp only [hfun, List.length_zipWith, ← hlen, Nat.min_self]
+
+/-! ## column ensemble -/
+
+/-- `ColumnEnsembleClassifier.predict_proba`: entry `(i, c)` is the mean over the fitted members of
+member `k`'s entry on the panel restricted to ITS OWN columns (members: arbitrary functions
+returning `n × K` matrices) -/
+theorem column_ensemble_eq_mean_of_members {α : Type} (n K : Nat) (members : List (Member α)) (columns : List (List Nat))
+    (X : List (List α)) (hlen : members.length = columns.length) (hM : members ≠ [])
+    (hshape : ∀ f ∈ members, ∀ Z, sameShape n K (f Z) = true) :
+    ∃ P, colEnsProba members columns X = .ok P ∧
+      ∀ i c, Lem.entry P i c =
+        (List.zipWith (fun (f : Member α) cols => Lem.entry (f (selectColumns X cols)) i c) members columns).sum /
+          (members.length : Rat) := by
+  have hs : ∀ M ∈ List.zipWith (fun (f : Member α) cols => f (selectColumns X cols)) members columns,
+      sameShape n K M = true := by
+    intro M hM'
+    obtain ⟨k, hk, rfl⟩ := List.mem_iff_getElem.mp hM'
+    rw [List.getElem_zipWith]
+    exact hshape _ (List.getElem_mem _) _
+  have hne : List.zipWith (fun (f : Member α) cols => f (selectColumns X cols)) members columns ≠ [] := by
+    intro e
+    have := congrArg List.length e
+    simp only [List.length_zipWith, List.length_nil] at this
+    have := List.length_pos_iff.mpr hM
+    omega
+  obtain ⟨P, hP, hE⟩ := Lem.avgProba_entry_list _ hne hs
+  refine ⟨P, hP, ?_⟩
+  intro i c
+  rw [hE i c, List.map_zipWith]
+  simp only [List.length_zipWith, ← hlen, Nat.min_self]
+
+/-- `fit`: each fitted member gets exactly the positions its entry names; `'drop'` entries and empty
+selections get no member; every position lies inside the panel; a column name is its position. -/
+theorem column_ensemble_members_own_columns (cols : List String) (es : List Entry) (cs : List (List Nat))
+    (h : ceMembers cols es = .ok cs) :
+    (∃ rs, es.mapM (fun e => (resolveKey cols e.key).map (fun c => (e.drop, c))) = .ok rs ∧
+      cs = (rs.filter (fun p => !p.1 && !p.2.isEmpty)).map (·.2)) ∧
+    (∀ c ∈ cs, c ≠ [] ∧ ∀ i ∈ c, i < cols.length) ∧
+    (∀ s i, resolveKey cols (.name s) = .ok [i] → cols[i]? = some s) := by
+  unfold ceMembers at h
+  cases hr : es.mapM (fun e => (resolveKey cols e.key).map (fun c => (e.drop, c))) with
+  | error e => rw [hr] at h; cases h
+  | ok rs =>
+    rw [hr] at h
+    simp only [bind, Except.bind, pure, Except.pure, Except.ok.injEq] at h
+    subst h
+    have hnorm : ∀ k i, normIdx cols.length k = .ok i → i < cols.length := by
+      intro k i hk
+      have aux : ∀ k' : Int, (if 0 ≤ k' ∧ k' < (cols.length : Int) then (Except.ok k'.toNat : Except Err Nat)
+          else .error .index) = .ok i → i < cols.length := by
+        intro k' hk'
+        by_cases hc : 0 ≤ k' ∧ k' < (cols.length : Int)
+        · rw [if_pos hc] at hk'; cases hk'; omega
+        · rw [if_neg hc] at hk'; cases hk'
+      exact aux _ hk
+    have hname : ∀ s i, nameIdx cols s = .ok i → i < cols.length ∧ cols[i]? = some s := by
+      intro s i hk
+      by_cases hc : cols.idxOf s < cols.length
+      · simp only [nameIdx, hc, if_true, Except.ok.injEq] at hk
+        subst hk
+        exact ⟨hc, by rw [List.getElem?_eq_getElem hc]; congr 1; exact List.getElem_idxOf hc⟩
+      · simp [nameIdx, hc] at hk
+    have hres : ∀ key is, resolveKey cols key = .ok is → ∀ i ∈ is, i < cols.length := by
+      intro key is hk i hi
+      cases key with
+      | int k =>
+        simp only [resolveKey] at hk
+        cases hn : normIdx cols.length k with
+        | error e => rw [hn] at hk; cases hk
+        | ok j =>
+          rw [hn] at hk; simp only [Except.map, Except.ok.injEq] at hk; subst hk
+          simp at hi; rw [hi]; exact hnorm k j hn
+      | ints ks =>
+        simp only [resolveKey] at hk
+        have := Lem.mapM_ok_inv _ _ _ hk
+        obtain ⟨k, _, hki⟩ : ∃ k, k ∈ ks ∧ normIdx cols.length k = .ok i := by
+          clear hk
+          induction this with
+          | nil => simp at hi
+          | cons hab _ ih =>
+            rcases List.mem_cons.mp hi with rfl | hi
+            · exact ⟨_, by simp, hab⟩
+            · obtain ⟨k, hk, hki⟩ := ih hi; exact ⟨k, List.mem_cons_of_mem _ hk, hki⟩
+        exact hnorm k i hki
+      | name s =>
+        simp only [resolveKey] at hk
+        cases hn : nameIdx cols s with
+        | error e => rw [hn] at hk; cases hk
+        | ok j =>
+          rw [hn] at hk; simp only [Except.map, Except.ok.injEq] at hk; subst hk
+          simp at hi; rw [hi]; exact (hname s j hn).1
+      | names ss =>
+        simp only [resolveKey] at hk
+        have := Lem.mapM_ok_inv _ _ _ hk
+        obtain ⟨s, _, hsi⟩ : ∃ s, s ∈ ss ∧ nameIdx cols s = .ok i := by
+          clear hk
+          induction this with
+          | nil => simp at hi
+          | cons hab _ ih =>
+            rcases List.mem_cons.mp hi with rfl | hi
+            · exact ⟨_, by simp, hab⟩
+            · obtain ⟨k, hk, hki⟩ := ih hi; exact ⟨k, List.mem_cons_of_mem _ hk, hki⟩
+        exact (hname s i hsi).1
+    refine ⟨⟨rs, rfl, rfl⟩, ?_, ?_⟩
+    · intro c hc
+      simp only [List.mem_map, List.mem_filter] at hc
+      obtain ⟨p, ⟨hp, hf⟩, rfl⟩ := hc
+      have hall := Lem.mapM_ok_inv _ _ _ hr
+      have : ∃ e ∈ es, (resolveKey cols e.key).map (fun c => (e.drop, c)) = .ok p := by
+        clear hr hf
+        induction hall with
+        | nil => simp at hp
+        | cons hab _ ih =>
+          rcases List.mem_cons.mp hp with rfl | hp
+          · exact ⟨_, by simp, hab⟩
+          · obtain ⟨e, he, hk⟩ := ih hp; exact ⟨e, List.mem_cons_of_mem _ he, hk⟩
+      obtain ⟨e, _, hk⟩ := this
+      cases hk' : resolveKey cols e.key with
+      | error er => rw [hk'] at hk; cases hk
+      | ok is =>
+        rw [hk'] at hk
+        simp only [Except.map, Except.ok.injEq] at hk
+        subst hk
+        simp only [Bool.and_eq_true, Bool.not_eq_true', List.isEmpty_eq_false_iff] at hf
+        exact ⟨hf.2, hres e.key is hk'⟩
+    · intro s i hk
+      simp only [resolveKey] at hk
+      cases hn : nameIdx cols s with
+      | error e => rw [hn] at hk; cases hk
+      | ok j =>
+        rw [hn] at hk; simp only [Except.map, Except.ok.injEq, List.cons.injEq, and_true] at hk; subst hk
+        exact (hname s j hn).2
+
+example : ceMembers ["a", "b", "c"] [⟨false, .int 0⟩, ⟨true, .name "b"⟩, ⟨false, .names []⟩, ⟨false, .names ["c", "a"]⟩,
+    ⟨false, .int (-1)⟩] = .ok [[0], [2, 0], [2]] := by decide +kernel
+
+/-! ## fitted intervals -/
+
+/-- `_get_intervals`: whatever the generator draws, every sampled interval `[a, b)` lies within the
+series, has at least `min_interval` points (hence is non-empty for `min_interval ≥ 1`), and the
+right `randint` bounds were requested. -/
+theorem intervals_within_series (m L k : Nat) (ds : List Nat) (ivs : List (Nat × Nat)) (hs rest : List Nat)
+    (h : getIntervals m L k ds = .ok (ivs, hs, rest)) :
+    ivs.length = k ∧ ∀ iv ∈ ivs, iv.1 + m ≤ iv.2 ∧ iv.2 ≤ L ∧ (1 ≤ m → iv.1 < iv.2) := by
+  obtain ⟨h1, _, _, h4⟩ := Lem.getIntervals_ok k ds h
+  refine ⟨h1, fun iv hiv => ?_⟩
+  obtain ⟨a, b⟩ := h4 iv hiv
+  exact ⟨a, by omega, by omega⟩
+
+example : getIntervals 3 12 3 [0, 0, 8, 2, 3, 5] = .ok ([(0, 3), (8, 11), (3, 8)], [9, 11, 9, 3, 9, 8], []) := by decide +kernel
+
+/-- TSF / TSF-regressor `fit`: one interval set per estimator, `max(1, ⌊√L⌋)` intervals each, all
+within the series and of at least `min_interval` points -/
+theorem fit_intervals_within_series (L mi T : Nat) (ds : List Nat) (all : List (List (Nat × Nat))) (hs : List Nat)
+    (h : fitIntervals L mi T ds = .ok (all, hs)) :
+    all.length = T ∧ ∀ ivs ∈ all, ivs.length = nIntervals L ∧
+      ∀ iv ∈ ivs, iv.1 + min mi L ≤ iv.2 ∧ iv.2 ≤ L ∧ (1 ≤ mi → iv.1 < iv.2) := by
+  obtain ⟨h1, h2⟩ := Lem.fitIntervals_ok T ds h
+  refine ⟨h1, fun ivs hivs => ?_⟩
+  obtain ⟨g1, g2, g3⟩ := h2 ivs hivs
+  refine ⟨g1, fun iv hiv => ?_⟩
+  obtain ⟨a, b⟩ := g3 iv hiv
+  have hm : minIntervalFit L mi = min mi L := by unfold minIntervalFit; split <;> omega
+  rw [hm] at a g2
+  refine ⟨a, by omega, fun h1m => ?_⟩
+  have : 1 ≤ min mi L := by omega
+  omega
+
+example : fitIntervals 9 3 2 [0, 0, 5, 1, 2, 5, 3, 4, 1, 1, 0, 7] =
+    .ok ([[(0, 3), (5, 8), (2, 7)], [(3, 7), (1, 4), (0, 7)]], [6, 8, 6, 3, 6, 6, 6, 5, 6, 7, 6, 8]) := by decide +kernel
+
+/-- the code as it stands cannot fit a series of `min_interval` points or fewer (default: 3):
+`rng.randint(series_length − min_interval)` is asked for a number below 0 or 0 → ValueError,
+whatever the generator -/
+theorem fit_rejects_short_series (L mi T : Nat) (ds : List Nat) (h : L ≤ mi) :
+    fitIntervals L mi (T + 1) ds = .error .value := Lem.fitIntervals_short h T ds
+
+example : fitIntervals 3 3 1 [0, 0] = .error .value := by decide +kernel
+example : (List.map nIntervals [0, 1, 3, 4, 8, 9, 15, 16, 17, 99, 100]) = [1, 1, 1, 2, 2, 3, 3, 4, 4, 9, 10] := by decide +kernel
+
 end SkVerif.C17
